@@ -174,4 +174,47 @@ CHECKS = {
              "checks": {"quick": 3000, "thorough": 30000}, "shards": {"quick": 1, "thorough": 8}},
         ],
     },
+    "C01": {
+        "level_text": "Stateful property-based exploration of the real routing code (streamRouting / proxyStreamSender / proxyStreamReceiver / shardManagerImpl) in a virtual-time bubble with the harness owning every stream boundary; history invariant checked after every step.",
+        "technique": "stateful (model-based) property-based testing with rapid over a simulated deployment in virtual time; reference model of Temporal's receiver; history invariant oracle",
+        "level": "exploration",
+        "assumptions": [
+            "routing world = one proxy instance, real streamRouting per stream, scripted fake streams (gRPC contract: Recv/Send fail after the stream context is cancelled; CloseSend makes a well-behaved peer end the stream), virtual time (testing/synctest); schedules are explored at the granularity of stream API calls, channel hand-offs and timers",
+            "sources behave like Temporal's sender: strictly increasing task ids, RawTaskInfo{NamespaceId,WorkflowId,TaskId==SourceTaskId} always set, one non-decreasing exclusive-high-watermark sequence per stream",
+            "targets behave like Temporal's receiver: a port of ExecutableTaskTrackerImpl (server v1.31.2) generates their acknowledgements",
+        ],
+        "parts": [
+            {"name": "rapid", "pkg": "proxy", "run": "^TestVF_C01_Rapid$",
+             "checks": {"quick": 4000, "thorough": 40000}, "shards": {"quick": 4, "thorough": 16}},
+        ],
+    },
+    "C02": {
+        "level_text": "Same exploration as C01 with a drain phase; exact-delivery, ownership (Temporal's hash), payload, order and well-formedness oracles evaluated on everything observed on the target faces; the reference receiver must accept every task.",
+        "technique": "stateful property-based testing with rapid; exact-delivery and reference-receiver oracle",
+        "level": "exploration",
+        "assumptions": [
+            "routing world = one proxy instance, real streamRouting per stream, scripted fake streams (gRPC contract: Recv/Send fail after the stream context is cancelled; CloseSend makes a well-behaved peer end the stream), virtual time (testing/synctest); schedules are explored at the granularity of stream API calls, channel hand-offs and timers",
+            "sources behave like Temporal's sender: strictly increasing task ids, RawTaskInfo{NamespaceId,WorkflowId,TaskId==SourceTaskId} always set, one non-decreasing exclusive-high-watermark sequence per stream",
+            "targets behave like Temporal's receiver: a port of ExecutableTaskTrackerImpl (server v1.31.2) generates their acknowledgements",
+        ],
+        "parts": [
+            {"name": "rapid", "pkg": "proxy", "run": "^TestVF_C02_Rapid$",
+             "checks": {"quick": 3000, "thorough": 30000}, "shards": {"quick": 4, "thorough": 16}},
+        ],
+    },
+    "C03": {
+        "level_text": "Same exploration as C01; safety (monotone, bounded) over the whole history and bounded liveness in virtual time under the fairness the statement assumes (periodic watermark re-sends, targets that keep acknowledging).",
+        "technique": "stateful property-based testing with rapid; safety invariant + bounded-liveness epilogue in virtual time",
+        "level": "exploration",
+        "assumptions": [
+            "routing world = one proxy instance, real streamRouting per stream, scripted fake streams (gRPC contract: Recv/Send fail after the stream context is cancelled; CloseSend makes a well-behaved peer end the stream), virtual time (testing/synctest); schedules are explored at the granularity of stream API calls, channel hand-offs and timers",
+            "sources behave like Temporal's sender: strictly increasing task ids, RawTaskInfo{NamespaceId,WorkflowId,TaskId==SourceTaskId} always set, one non-decreasing exclusive-high-watermark sequence per stream",
+            "targets behave like Temporal's receiver: a port of ExecutableTaskTrackerImpl (server v1.31.2) generates their acknowledgements",
+            "'eventually' = within 30 virtual seconds of the epilogue in which sources re-send their final watermark and targets finish and acknowledge everything once per second",
+        ],
+        "parts": [
+            {"name": "rapid", "pkg": "proxy", "run": "^TestVF_C03_Rapid$",
+             "checks": {"quick": 2000, "thorough": 20000}, "shards": {"quick": 4, "thorough": 16}},
+        ],
+    },
 }
